@@ -10,6 +10,7 @@
 // hash, cmp, str, exact Dummy indices, and the sharing profile (#distinct objects per structural key) of the
 // object graph walked through the stored child pointers.
 #include "checks/ser_states.h"
+#include "checks/bigints.h"
 using namespace serst;
 
 static std::vector<Leaf> LV;
@@ -456,6 +457,39 @@ int main(int argc, char **argv)
     };
     run_cases(l0);
     lap("L0");
+
+    // ---- L0b: integers next to every representation boundary (int / long / unsigned long / limb sizes, decimal digit
+    // counts around LONG_MAX) in every position an integer can take inside a serialised object
+    {
+        B x = symbol("x");
+        std::vector<std::pair<std::string, B>> bs;
+        for (auto &n : verif::boundary_integers()) {
+            RCP<const Integer> N = integer(n);
+            std::string t = verif::bstr(n);
+            B q = Rational::from_mpq(rational_class(n, integer_class(3)));
+            bs.push_back({t, N});
+            bs.push_back({"(" + t + ")/3", q});
+            bs.push_back({"3/(" + t + ")", div(integer(3), N)});
+            bs.push_back({"(" + t + ")*x", mul(N, x)});
+            bs.push_back({"x**(" + t + ")", pow(x, N)});
+            bs.push_back({"x+(" + t + ")", add(x, N)});
+            bs.push_back({"sin(" + t + ")", sin(N)});
+            bs.push_back({"(" + t + ")+I", add(N, I)});
+            bs.push_back({"1/2+(" + t + ")/3*I", add(Rational::from_two_ints(1, 2), mul(q, I))});
+            bs.push_back({"x<(" + t + ")", Lt(x, N)});
+            bs.push_back({"{" + t + ", x}", finiteset({N, x})});
+        }
+        CaseSet lb;
+        lb.name = "L0b:boundary-integers";
+        lb.n = bs.size();
+        lb.counter_names = CN;
+        lb.desc = [&](long long i) { return bs[i].first; };
+        lb.crash_sig = [&](long long i, const std::string &oc) { return "crash-in-roundtrip:" + oc + ":" + node_class(*bs[i].second); };
+        lb.body = [&](long long i, Ctx &c) { judge(bs[i].second, bs[i].first, c); };
+        run_cases(lb);
+        R.counters["boundary_integer_forms"] = bs.size();
+        lap("L0b");
+    }
 
     // ---- L1: every constructor on every admissible tuple of leaves
     uint64_t inadm = 0;
